@@ -195,7 +195,6 @@ pub open spec fn known_ok(pos: Pos, buffered: Set<u32>, vis: Map<u32, Lifecycle>
     forall|id: u32| #[trigger] pos.dom().contains(id) ==> buffered.contains(id) || vis.dom().contains(id)
 }
 // the lifecycle of every queued message is a lifecycle of the message's own ECU in the map
-#[verifier::opaque]
 pub open spec fn queued_ok(pos: Pos, q: Seq<DltMessage>) -> bool {
     forall|i: int| 0 <= i < q.len() ==> pos.dom().contains((#[trigger] q[i]).lifecycle) && pos[q[i].lifecycle].0 == q[i].ecu
 }
@@ -268,19 +267,19 @@ pub proof fn lemma_pos_drop_last(pos: Pos, m1: Map<DltChar4, Seq<Lifecycle>>, e:
 }
 pub proof fn lemma_queued_empty(pos: Pos)
     ensures queued_ok(pos, Seq::<DltMessage>::empty()),
-{ reveal(queued_ok); }
+{ }
 pub proof fn lemma_queued_skip(pos: Pos, q: Seq<DltMessage>)
     requires queued_ok(pos, q), q.len() > 0,
     ensures queued_ok(pos, q.skip(1)), located(pos, q[0]),
 {
-    reveal(queued_ok);
+   
     assert forall|i: int| 0 <= i < q.skip(1).len() implies pos.dom().contains((#[trigger] q.skip(1)[i]).lifecycle) && pos[q.skip(1)[i].lifecycle].0 == q.skip(1)[i].ecu by { assert(q.skip(1)[i] == q[i + 1]); }
 }
 pub proof fn lemma_queued_push(pos: Pos, q: Seq<DltMessage>, m: DltMessage)
     requires queued_ok(pos, q), located(pos, m),
     ensures queued_ok(pos, q.push(m)),
 {
-    reveal(queued_ok);
+   
     assert forall|i: int| 0 <= i < q.push(m).len() implies pos.dom().contains((#[trigger] q.push(m)[i]).lifecycle) && pos[q.push(m)[i].lifecycle].0 == q.push(m)[i].ecu by { if i < q.len() { assert(q.push(m)[i] == q[i]); } }
 }
 // ---- one lemma per way the assignment step changes the map (all C06 bookkeeping of that step) ----
@@ -309,7 +308,7 @@ pub proof fn lemma_step_new(pos: Pos, m0: Map<DltChar4, Seq<Lifecycle>>, e: DltC
     lemma_pos_same_ids(pos, m0, e, l1);
     lemma_pos_push(pos, m0.insert(e, l1), e, x);
     assert(m0.insert(e, l1).insert(e, l1.push(x)) =~= m0.insert(e, l1.push(x)));
-    reveal(known_ok); reveal(tab_ok); reveal(queued_ok);
+    reveal(known_ok); reveal(tab_ok);
     assert forall|i: int| 0 <= i < q.len() implies pos1.dom().contains((#[trigger] q[i]).lifecycle) && pos1[q[i].lifecycle].0 == q[i].ecu by { assert(pos.dom().contains(q[i].lifecycle)); }
 }
 // (c) the last lifecycle (id `from`) was merged into its predecessor (id `to`), the queued messages re-labelled, `from` removed
@@ -340,7 +339,7 @@ pub proof fn lemma_step_merge(pos: Pos, m0: Map<DltChar4, Seq<Lifecycle>>, e: Dl
     assert(from != to);
     lemma_pos_drop_last(pos, m1, e);
     assert(m1.insert(e, l1.drop_last()) =~= m0.insert(e, l1.drop_last()));
-    reveal(known_ok); reveal(tab_ok); reveal(queued_ok);
+    reveal(known_ok); reveal(tab_ok);
     assert forall|i: int| 0 <= i < q2.len() implies pos1.dom().contains((#[trigger] q2[i]).lifecycle) && pos1[q2[i].lifecycle].0 == q2[i].ecu by {
         assert(q2[i] == relabel(q[i], from, to));
         assert(pos.dom().contains(q[i].lifecycle) && pos[q[i].lifecycle].0 == q[i].ecu);
@@ -351,7 +350,7 @@ pub proof fn lemma_step_merge(pos: Pos, m0: Map<DltChar4, Seq<Lifecycle>>, e: Dl
 pub proof fn lemma_all_sendable(pos: Pos, buffered: Set<u32>, vis: Map<u32, Lifecycle>, q: Seq<DltMessage>)
     requires known_ok(pos, buffered, vis), tab_ok(vis, pos), queued_ok(pos, q), forall|x: u32| !buffered.contains(x),
     ensures forall|i: int| 0 <= i < q.len() ==> sendable(vis, #[trigger] q[i]),
-{ reveal(known_ok); reveal(tab_ok); reveal(queued_ok); }
+{ reveal(known_ok); reveal(tab_ok); }
 pub proof fn lemma_one_sendable(pos: Pos, buffered: Set<u32>, vis: Map<u32, Lifecycle>, m: DltMessage)
     requires known_ok(pos, buffered, vis), tab_ok(vis, pos), located(pos, m), !buffered.contains(m.lifecycle),
     ensures sendable(vis, m),
@@ -360,7 +359,12 @@ pub proof fn lemma_one_sendable(pos: Pos, buffered: Set<u32>, vis: Map<u32, Life
 pub proof fn lemma_unbuffered_sendable(pos: Pos, buffered: Set<u32>, vis: Map<u32, Lifecycle>, q: Seq<DltMessage>)
     requires known_ok(pos, buffered, vis), tab_ok(vis, pos), queued_ok(pos, q),
     ensures forall|i: int| 0 <= i < q.len() && !buffered.contains((#[trigger] q[i]).lifecycle) ==> sendable(vis, q[i]),
-{ reveal(known_ok); reveal(tab_ok); reveal(queued_ok); }
+{ reveal(known_ok); reveal(tab_ok); }
+// every queued message of the (visible) lifecycle `pid`, or of a lifecycle that is not buffered, can be delivered
+pub proof fn lemma_prune_sendable(pos: Pos, buffered: Set<u32>, vis: Map<u32, Lifecycle>, q: Seq<DltMessage>, pid: u32)
+    requires known_ok(pos, buffered, vis), tab_ok(vis, pos), queued_ok(pos, q), vis.dom().contains(pid),
+    ensures forall|i: int| 0 <= i < q.len() && ((#[trigger] q[i]).lifecycle == pid || !buffered.contains(q[i].lifecycle)) ==> sendable(vis, q[i]),
+{ reveal(known_ok); reveal(tab_ok); }
 // a lifecycle of the map is confirmed: it leaves the set of buffered lifecycles, is written to the table, the table is refreshed
 pub proof fn lemma_confirm(pos: Pos, m: Map<DltChar4, Seq<Lifecycle>>, e: DltChar4, j: int, item: Lifecycle, buffered: Set<u32>, vis: Map<u32, Lifecycle>, pen: Map<u32, Lifecycle>, marks: Seq<u32>)
     requires
@@ -394,6 +398,10 @@ pub proof fn lemma_wdom_refresh(pos: Pos, vis: Map<u32, Lifecycle>, pen: Map<u32
     requires wdom_ok(pos, vis, pen),
     ensures wdom_ok(pos, pen, pen), forall|id: u32| #[trigger] vis.dom().contains(id) && pos.dom().contains(id) ==> pen.dom().contains(id),
 { reveal(wdom_ok); }
+pub proof fn lemma_known_weaken(pos: Pos, b1: Set<u32>, b2: Set<u32>, vis: Map<u32, Lifecycle>)
+    requires known_ok(pos, b1, vis), forall|x: u32| b1.contains(x) ==> b2.contains(x),
+    ensures known_ok(pos, b2, vis),
+{ reveal(known_ok); }
 pub proof fn lemma_known_monotone(pos: Pos, buffered: Set<u32>, vis: Map<u32, Lifecycle>, vis2: Map<u32, Lifecycle>)
     requires known_ok(pos, buffered, vis), forall|id: u32| #[trigger] vis.dom().contains(id) && pos.dom().contains(id) ==> vis2.dom().contains(id),
     ensures known_ok(pos, buffered, vis2),
@@ -502,7 +510,7 @@ pub proof fn lemma_final_refresh(pos: Pos, buffered: Set<u32>, vis: Map<u32, Lif
         forall|i: int| 0 <= i < q.len() ==> sendable(pen, #[trigger] q[i]),
         forall|id: u32| #[trigger] pen.dom().contains(id) <==> pos.dom().contains(id),
 {
-    reveal(known_ok); reveal(tab_ok); reveal(all_pending); reveal(queued_ok); reveal(wdom_ok);
+    reveal(known_ok); reveal(tab_ok); reveal(all_pending); reveal(wdom_ok);
 }
 
 pub proof fn lemma_total_2(r: Seq<Lifecycle>, a: Lifecycle, b: Lifecycle)
@@ -771,14 +779,15 @@ pub fn vx_clone_lc(lc: &Lifecycle) -> (r: Lifecycle)
 //@|            pos = pos0.insert(g_new.id, (e, l1.len() as int));
 //@|            assert(buffered_lcs.ids() =~= buf0.insert(g_new.id));
 //@|        }
-//@|        assert(!remove_last_lc ==> list_ok(m_in.ecu, l_fin) && seq_total(l_fin) == seq_total(l0) + 1); // O:stream.lcs.count
-//@|        assert(remove_last_lc ==> l_fin.len() == ecu_lcs_len && list_ok(m_in.ecu, l_fin.drop_last()) && seq_total(l_fin.drop_last()) == seq_total(l0) + 1); // O:stream.lcs.merge_count
+//@|        assert(!remove_last_lc ==> list_ok(m_in.ecu, l_fin) && seq_total(l_fin) == seq_total(l0) + 1); // O:table.lcs.count
+//@|        assert(remove_last_lc ==> l_fin.len() == ecu_lcs_len && list_ok(m_in.ecu, l_fin.drop_last()) && seq_total(l_fin.drop_last()) == seq_total(l0) + 1); // O:table.lcs.merge_count
 //@|        assert(nf ==> fwd_ok(outflow.log() + buffered_msgs.q(), log0, ms0.take(k - 1))); // O:stream.relabel.fifo
 //@|        assert(pos_inv(pos, map0.insert(e, if remove_last_lc { l_fin.drop_last() } else { l_fin }))); // O:publish.step.pos
 //@|        assert(queued_ok(pos, buffered_msgs.q())); // O:publish.step.queued (every queued message's lifecycle is a lifecycle of its ECU in the map)
 //@|        assert(known_ok(pos, buffered_lcs.ids(), lcs_w.visible())); // O:publish.step.known (every lifecycle in the map is buffered or visible)
 //@|        assert(tab_ok(lcs_w.visible(), pos) && tab_ok(lcs_w.wview(), pos));
-//@|        assert(wdom_ok(pos, lcs_w.visible(), lcs_w.wview()) && nb_ok(buffered_lcs.ids(), lcs_w.wview()) && marks_ok(buffered_lcs.ids(), lcs_to_refresh@)); // O:table.step.dom
+//@|        assert(wdom_ok(pos, lcs_w.visible(), lcs_w.wview())); // O:table.step.dom
+//@|        assert(nb_ok(buffered_lcs.ids(), lcs_w.wview()) && marks_ok(buffered_lcs.ids(), lcs_to_refresh@));
 //@|        assert(located(pos, msg)); // O:stream.assigned_ecu (the id denotes a lifecycle of the message's own ECU)
 //@|    }
 //@   hint after `let _removed = ecu_lcs.remove(`
@@ -809,13 +818,11 @@ pub fn vx_clone_lc(lc: &Lifecycle) -> (r: Lifecycle)
 //@|        all_b = outflow.log() + buffered_msgs.q();
 //@|        assert(pos_inv(pos, ecu_map.m())); // O:publish.mid.pos
 //@|        assert(queued_ok(pos, buffered_msgs.q()) && known_ok(pos, buffered_lcs.ids(), lcs_w.visible()) && tab_ok(lcs_w.visible(), pos) && tab_ok(lcs_w.wview(), pos)); // O:publish.mid
-//@|        assert(wdom_ok(pos, lcs_w.visible(), lcs_w.wview()) && nb_ok(buffered_lcs.ids(), lcs_w.wview()) && marks_ok(buffered_lcs.ids(), lcs_to_refresh@)); // O:table.mid.dom
+//@|        assert(wdom_ok(pos, lcs_w.visible(), lcs_w.wview())); // O:table.mid.dom
+//@|        assert(nb_ok(buffered_lcs.ids(), lcs_w.wview()) && marks_ok(buffered_lcs.ids(), lcs_to_refresh@));
 //@|        assert(located(pos, msg));
 //@|    }
-//@   hint before 1 `let msg = buffered_msgs.pop_front().unwrap();`
-//@|    let ghost qq1 = buffered_msgs.q();
-//@|    proof { lemma_queued_skip(pos, qq1); }
-//@   hint before `buffered_lcs.remove(&lc.id);`
+//@   hint before 1 `if buffered_lcs.is_empty() {`
 //@|    let ghost b_pre = buffered_lcs.ids();
 //@|    let ghost vis_pre = lcs_w.visible();
 //@|    let ghost pen_pre = lcs_w.wview();
@@ -824,17 +831,18 @@ pub fn vx_clone_lc(lc: &Lifecycle) -> (r: Lifecycle)
 //@|        let item = lcs_w.wview()[lc.id];
 //@|        let e = ecu_map.keys()[vx_vi - 1];
 //@|        assert(ecu_map.m()[e][vx_lj as int] == *lc);
-//@|        lemma_confirm(pos, ecu_map.m(), e, vx_lj as int, item, b_pre, vis_pre, pen_pre, lcs_to_refresh@);
-//@|        assert(lcs_w.wview() =~= pen_pre.insert(lc.id, item));
-//@|        assert(buffered_lcs.ids() =~= b_pre.remove(lc.id));
-//@|        lemma_unbuffered_sendable(pos, buffered_lcs.ids(), lcs_w.visible(), buffered_msgs.q());
+//@|        // (the facts are derived only for the state the statements above actually produced: if the lifecycle was not taken out of
+//@|        // buffered_lcs, not written or not refreshed here, the tagged invariants of the loops below fail, not this hint)
+//@|        if lcs_w.wview() =~= pen_pre.insert(lc.id, item) && lcs_w.visible() == lcs_w.wview() {
+//@|            lemma_confirm(pos, ecu_map.m(), e, vx_lj as int, item, b_pre, vis_pre, pen_pre, lcs_to_refresh@);
+//@|            if buffered_lcs.ids() =~= b_pre.remove(lc.id) {
+//@|                lemma_prune_sendable(pos, buffered_lcs.ids(), lcs_w.visible(), buffered_msgs.q(), lc.id);
+//@|            } else if buffered_lcs.ids() =~= b_pre {
+//@|                lemma_known_weaken(pos, b_pre.remove(lc.id), b_pre, lcs_w.visible());
+//@|                lemma_prune_sendable(pos, buffered_lcs.ids(), lcs_w.visible(), buffered_msgs.q(), lc.id);
+//@|            }
+//@|        }
 //@|    }
-//@   hint before 2 `let msg = buffered_msgs.pop_front().unwrap();`
-//@|    let ghost qq2 = buffered_msgs.q();
-//@|    proof { lemma_queued_skip(pos, qq2); }
-//@   hint before 3 `let msg = buffered_msgs.pop_front().unwrap();`
-//@|    let ghost qq3 = buffered_msgs.q();
-//@|    proof { lemma_queued_skip(pos, qq3); }
 //@   hint before last `if !buffered_lcs.is_empty() {` ||| `if buffered_lcs.is_empty() {`
 //@|    proof {
 //@|        assert(nf ==> outflow.log() + buffered_msgs.q() == all_b);
@@ -906,20 +914,20 @@ pub fn vx_clone_lc(lc: &Lifecycle) -> (r: Lifecycle)
 //@|        nf ==> fwd_ok(outflow.log() + buffered_msgs.q(), log0, ms0.take(k)), // O:stream.inv.fifo
 //@|        nf ==> queue_inv(&buffered_lcs, &buffered_msgs), // O:stream.inv.queue
 //@|        map_ok(ecu_map.m()), // O:stream.inv.map
-//@|        ecu_map.total() + (ms0.len() - k) <= u32::MAX, // O:stream.inv.budget
+//@|        ecu_map.total() + (ms0.len() - k) <= u32::MAX, // O:table.inv.budget
 //@|        outflow.log().len() >= log0.len(),
 //@|        last_regular_refresh_index <= u32::MAX - 100_000 && last_msg_index <= u32::MAX - 100_000,
 //@|        pos_inv(pos, ecu_map.m()), // O:publish.inv.pos (lifecycle ids are pairwise distinct; pos locates each)
 //@|        tab_ok(lcs_w.visible(), pos) && tab_ok(lcs_w.wview(), pos), // O:publish.inv.ecu (a table entry carries the ECU its lifecycle is stored under)
 //@|        known_ok(pos, buffered_lcs.ids(), lcs_w.visible()), // O:publish.inv.known (every lifecycle in the map is still buffered or already visible)
 //@|        wdom_ok(pos, lcs_w.visible(), lcs_w.wview()), // O:table.inv.dom (the table lists no lifecycle that is not in the map: no merged lifecycle)
-//@|        nb_ok(buffered_lcs.ids(), lcs_w.wview()) && marks_ok(buffered_lcs.ids(), lcs_to_refresh@), // O:table.inv.unbuffered (a buffered lifecycle is neither in the table nor marked for a refresh)
+//@|        nb_ok(buffered_lcs.ids(), lcs_w.wview()) && marks_ok(buffered_lcs.ids(), lcs_to_refresh@), // (auxiliary, untagged) a buffered lifecycle is neither in the table nor marked for a refresh
 //@|        ecu_map.total() == vmsgs0 + k, // O:table.inv.total (the message counts of all lifecycles add up to the number of messages)
 //@|        queued_ok(pos, buffered_msgs.q()), // O:publish.inv.queued (the lifecycle of every queued message is a lifecycle of its own ECU in the map)
 //@|    ensures
 //@|        nf ==> k == ms0.len(),
 //@|    decreases ms0.len() - k,
-//@   loop inner `last_lc_id = msg_lc`
+//@   loop inner `last_lc_id =`
 //@|    invariant
 //@|        outflow.never_fails() == nf,
 //@|        nf ==> outflow.log() + buffered_msgs.q() == all_b, // O:stream.flush.fifo
@@ -937,7 +945,8 @@ pub fn vx_clone_lc(lc: &Lifecycle) -> (r: Lifecycle)
 //@|        outflow.log().len() >= log0.len(),
 //@|        nf ==> queue_inv(&buffered_lcs, &buffered_msgs), // O:stream.confirm.queue
 //@|        tab_ok(lcs_w.visible(), pos) && tab_ok(lcs_w.wview(), pos), known_ok(pos, buffered_lcs.ids(), lcs_w.visible()), queued_ok(pos, buffered_msgs.q()), // O:publish.confirm.inv
-//@|        wdom_ok(pos, lcs_w.visible(), lcs_w.wview()) && nb_ok(buffered_lcs.ids(), lcs_w.wview()) && marks_ok(buffered_lcs.ids(), lcs_to_refresh@), // O:table.confirm.inv
+//@|        wdom_ok(pos, lcs_w.visible(), lcs_w.wview()), // O:table.confirm.inv
+//@|        nb_ok(buffered_lcs.ids(), lcs_w.wview()) && marks_ok(buffered_lcs.ids(), lcs_to_refresh@),
 //@|    decreases vx_nv - vx_vi,
 //@   loop inner `let mut prune_lc_id`
 //@|    invariant
@@ -946,17 +955,18 @@ pub fn vx_clone_lc(lc: &Lifecycle) -> (r: Lifecycle)
 //@|        outflow.log().len() >= log0.len(),
 //@|        nf ==> queue_inv(&buffered_lcs, &buffered_msgs), // O:stream.confirm.inner.queue
 //@|        tab_ok(lcs_w.visible(), pos) && tab_ok(lcs_w.wview(), pos), known_ok(pos, buffered_lcs.ids(), lcs_w.visible()), queued_ok(pos, buffered_msgs.q()), // O:publish.confirm.inner.inv
-//@|        wdom_ok(pos, lcs_w.visible(), lcs_w.wview()) && nb_ok(buffered_lcs.ids(), lcs_w.wview()) && marks_ok(buffered_lcs.ids(), lcs_to_refresh@), // O:table.confirm.inner.inv
+//@|        wdom_ok(pos, lcs_w.visible(), lcs_w.wview()), // O:table.confirm.inner.inv
+//@|        nb_ok(buffered_lcs.ids(), lcs_w.wview()) && marks_ok(buffered_lcs.ids(), lcs_to_refresh@),
 //@|    decreases vx_lj,
-//@   loop inner `prune_lc_id = msg_lc`
+//@   loop inner `prune_lc_id =`
 //@|    invariant
 //@|        outflow.never_fails() == nf,
 //@|        nf ==> outflow.log() + buffered_msgs.q() == all_b, // O:stream.prune.fifo
 //@|        outflow.log().len() >= log0.len(),
 //@|        queued_ok(pos, buffered_msgs.q()),
-//@|        !buffered_lcs.ids().contains(prune_lc_id), // O:publish.prune.confirmed (only messages of confirmed lifecycles are released)
 //@|        marks_ok(buffered_lcs.ids(), lcs_to_refresh@),
-//@|        forall|i: int| 0 <= i < buffered_msgs.q().len() && !buffered_lcs.ids().contains((#[trigger] buffered_msgs.q()[i]).lifecycle) ==> sendable(lcs_w.visible(), buffered_msgs.q()[i]), // O:publish.prune.sendable
+//@|        // every queued message of the lifecycle being pruned, or of a lifecycle that is no longer buffered, can be delivered
+//@|        forall|i: int| 0 <= i < buffered_msgs.q().len() && ((#[trigger] buffered_msgs.q()[i]).lifecycle == prune_lc_id || !buffered_lcs.ids().contains(buffered_msgs.q()[i].lifecycle)) ==> sendable(lcs_w.visible(), buffered_msgs.q()[i]), // O:publish.prune.sendable
 //@|    ensures
 //@|        nf ==> queue_inv(&buffered_lcs, &buffered_msgs), // O:stream.prune.queue
 //@|    decreases buffered_msgs.q().len(),
